@@ -11,6 +11,13 @@ def build():
     return vlib.compile_cxx(SRC, "c03", std="c++14", opt="-O1", san="asan")
 
 
+SWEEP = os.path.join(HERE, "sweep.cpp")
+
+
+def build_sweep():
+    return vlib.compile_cxx(SWEEP, "c03sw", std="c++14", opt="-O1", san="asan")
+
+
 def plan(tier):
     # (args, fixpoint?)
     if tier == "quick":
@@ -44,16 +51,21 @@ def plan(tier):
 
 
 def run(ctx):
-    binary = build()
+    binary, sw = vlib.parallel([build, build_sweep])
     dl = str(int(max(60, ctx.time_left() - 30)))
     jobs = [(lambda a=a: ctx.run_harness(binary, a + ["--deadline", dl], tag="c03")) for a in plan(ctx.tier)]
+    nmax = "2200" if ctx.tier == "quick" else "6400"
+    jobs += [(lambda b=b: ctx.run_harness(sw, ["--block", b, "--nmax", nmax], tag="c03sw")) for b in ("u8", "u16", "u32", "u64")]
     vlib.parallel(jobs)
     ctx.rule = ("BFS over raw states (size, block count, every block incl. bits beyond size()) of real xdynamic_bitset / xdynamic_bitset_view objects; "
                 "every operation instance of the alphabet (constructors, assign x3, resize(s[,b]), clear, push/pop_back, set/reset/flip all and per bit, reference and iterator writes, "
                 "<<= >>= << >> by {0,1,3,w/2,w-1,w,w+1,2w,2w+1,size-1,size,size+1}, &= |= ^= & | ^ swap against an operand gallery, ~, copy, move, view round trip) applied to every reachable state; "
                 "oracle std::vector<bool>; in every new state all queries (size empty count any all none [] at front back iteration x5 block_count == != copy move unused-bit invariant). "
                 "narrow blocks to fixpoint, wide blocks depth-bounded (see notes). Fault part: a bitset over an allocator whose allocate() is a throw point; resize/assign/push_back/copy/reserve "
-                "are also run with the k-th allocation failing for every k; afterwards block_count, the unused-bit invariant and all queries must be consistent. distinct_nontrivial = distinct raw states reached")
+                "are also run with the k-th allocation failing for every k; afterwards block_count, the unused-bit invariant and all queries must be consistent. "
+                "SIZE SWEEP (sweep.cpp): every size 0..2200 (quick) / 0..6400 (thorough) x 8 structured patterns (ones, zeros, alternating, every third, last only, all but first, one byte lane, ones with a hole per 64) x 4 block types, "
+                "built through proxies, bulk constructors, set/flip/reset/resize and push_back, as bitset and as view: size/count/any/all/none/every bit/iteration, complement and & | ^ identities, shifts by 1, w, w+1, single-bit inequality. "
+                "distinct_nontrivial = distinct raw states reached")
     ctx.stats["distinct_nontrivial"] = ctx.stats.get("states", 0)
     ctx.stats["evaluations"] = ctx.stats.get("transitions", 0)
     ctx.assumptions += [
@@ -65,4 +77,7 @@ def run(ctx):
 
 
 def replay(ctx, rec):
+    if rec["args"] and rec["args"][0] == "--sweep-only":
+        ctx.run_harness(build_sweep(), rec["args"], tag="c03sw")
+        return
     ctx.run_harness(build(), rec["args"], tag="c03")
